@@ -145,7 +145,9 @@ class RSAKey(PKey):
 
         # NOTE: pad received signature with leading zeros, key.verify()
         # expects a signature of key size (e.g. PuTTY doesn't pad)
-        sign = msg.get_binary()
+        sign = self._get_sig_blob(msg)
+        if sign is None:
+            return False
         diff = key.key_size - len(sign) * 8
         if diff > 0:
             sign = b"\x00" * ((diff + 7) // 8) + sign
